@@ -12,9 +12,12 @@ Every run of the real code that happens ahead of the oracle (look-up tables for 
 spots, P_RAJ tables) is wrapped: an exception of the implementation becomes a failing case (`exc_verdict`), not an
 infrastructure error."""
 import contextlib
+import copy
 import io
 import json
 import math
+import os
+import pickle
 import random
 import warnings
 
@@ -184,6 +187,12 @@ def assess(par, L, cs, Gs, nodes, ram=True, raj=True, scale=1.0, as_batch=None, 
     p = make_params(par, G_for(Gs, nodes, as_batch))
     if float(par["Kp"]) == 1.0:
         raj = False
+    return run_assessment(p, seq, ram, raj)
+
+
+def run_assessment(p, seq, ram=True, raj=True):
+    """perform_fkm_nonlinear_assessment on the GIVEN argument objects"""
+    A = _mod()
     with warnings.catch_warnings():
         warnings.simplefilter("ignore")
         with np.errstate(all="ignore"), contextlib.redirect_stdout(io.StringIO()):
@@ -193,6 +202,144 @@ def assess(par, L, cs, Gs, nodes, ram=True, raj=True, scale=1.0, as_batch=None, 
                 if "Failed to converge" in str(e):      # scipy.optimize.newton gave up (extended-Neuber tables, closure-stress Newton): solver behaviour (C06), not C10
                     raise SolverFailure(str(e))
                 raise
+
+
+# ---- argument integrity and state: the caller's objects after a call, results of repeated / interleaved calls
+def _same_value(a, b):
+    if type(a) is not type(b):
+        return False
+    if isinstance(a, pd.Series):
+        return (a.dtype == b.dtype and a.name == b.name and a.index.equals(b.index) and list(a.index.names) == list(b.index.names)
+                and a.index.dtype == b.index.dtype and a.to_numpy().tobytes() == b.to_numpy().tobytes())
+    if isinstance(a, float):
+        return a == b or (a != a and b != b)
+    return bool(a == b)
+
+
+def args_diff(p0, p, s0, s):
+    """What a call did to the caller's argument objects (deep copies p0, s0 taken before): (changes, added keys).
+    A change = the VALUE of a key that existed before the call differs / the key is gone, or the load sequence differs
+    (values bit for bit, index, names, dtypes): that changes what a later assessment with the same objects computes.
+    Keys ADDED to the parameter Series (the code adds the informational `notes` and the default of
+    `max_load_independently_for_nodes`) are outside the property: they are only counted."""
+    out = []
+    k0, k1 = list(p0.index), list(p.index)
+    added = [str(k) for k in k1 if k not in k0]
+    for k in k0:
+        if k not in k1:
+            out.append(f"assessment_parameters: key {k!r} removed")
+        elif not _same_value(p0[k], p[k]):
+            out.append(f"assessment_parameters[{k!r}] changed from {str(p0[k])[:80]!r} to {str(p[k])[:80]!r}")
+    if not (len(s) == len(s0) and s.dtype == s0.dtype and s.name == s0.name and list(s.index.names) == list(s0.index.names)
+            and s.index.equals(s0.index) and s.index.nlevels == s0.index.nlevels
+            and all(s.index.get_level_values(i).dtype == s0.index.get_level_values(i).dtype for i in range(s.index.nlevels))
+            and s.to_numpy().tobytes() == s0.to_numpy().tobytes()):
+        out.append(f"load_sequence changed (values / index / names / dtype): first values {s0.to_numpy()[:4].tolist()} -> {s.to_numpy()[:4].tolist()}")
+    return out, added
+
+
+def same_summary(a, b):
+    """bit-for-bit equality of two summaries (NaN equals NaN)"""
+    if isinstance(a, dict):
+        return isinstance(b, dict) and a.keys() == b.keys() and all(same_summary(a[k], b[k]) for k in a)
+    if isinstance(a, (list, tuple)):
+        return isinstance(b, (list, tuple)) and len(a) == len(b) and all(same_summary(x, y) for x, y in zip(a, b))
+    if isinstance(a, float) and isinstance(b, float):
+        return a == b or (a != a and b != b)
+    return a == b
+
+
+def first_difference(a, b):
+    for k in a:
+        if not same_summary(a[k], b.get(k)):
+            return f"{k}: {a[k]!r} vs {b.get(k)!r}"
+    return "?"
+
+
+def reuse_objects(case):
+    """the argument objects of a `reuse` case, built ONCE: A = (parameters, load sequence, flags) of the case,
+    B = the same with ONE thing varied (case["vary"])"""
+    par, L, cs, G = case["par"], case["L"], case["cs"], case["G"]
+    nn = len(cs)
+    nodes = list(range(nn))
+    parB, LB, GB, scaleB = dict(par), L, G, 1.0
+    what, val = case["vary"]
+    if what == "scale":
+        scaleB = val
+    elif what == "L":
+        LB = val
+    elif what == "G":
+        GB = val
+    else:
+        parB.update(val)
+    rajA = bool(case.get("raj", True)) and float(par["Kp"]) != 1.0
+    rajB = bool(case.get("rajB", True)) and float(parB["Kp"]) != 1.0
+    A = (make_params(par, float(G)), make_sequence(L, cs, nodes, 1.0, nn > 1, case.get("lay")), rajA)
+    B = (make_params(parB, float(GB)), make_sequence(LB, cs, nodes, scaleB, nn > 1, case.get("lay")), rajB)
+    return {"A": A, "B": B}
+
+
+def reuse_child(case, first):
+    """In THIS process: the calls `first`, other, `first` with the same argument objects each time (and, for first = A and a
+    batch, every point alone with the SAME parameter object).  Returns summaries and what happened to the arguments."""
+    objs = reuse_objects(case)
+    snaps = {k: (copy.deepcopy(v[0]), v[1].copy(deep=True)) for k, v in objs.items()}
+    nn = len(case["cs"])
+    other = "B" if first == "A" else "A"
+    out = {"res": [], "args": None, "alone": [], "added": []}
+    try:
+        for name in (first, other, first):
+            p, seq, raj = objs[name]
+            res = run_assessment(p, seq, True, raj)
+            out["res"].append(summary(res, nn, raj=raj))
+            d, added = args_diff(snaps[name][0], p, snaps[name][1], seq)
+            out["added"] = sorted(set(out["added"]) | set(added))
+            if d and out["args"] is None:
+                out["args"] = f"after call {len(out['res'])} ({name}): " + "; ".join(d[:4])
+        if first == "A" and nn > 1:
+            p, _, raj = objs["A"]
+            for k in range(nn):
+                seqk = make_sequence(case["L"], case["cs"], [k], 1.0, k % 2 == 1, case.get("lay"))
+                out["alone"].append(summary(run_assessment(p, seqk, True, raj), 1, raj=raj)[0])
+    except SolverFailure:
+        return {"solver": True}
+    except Exception as e:
+        try:
+            return {"exc": exc_verdict(e)}
+        except Exception as e2:
+            return {"exc": (f"harness: {type(e2).__name__}: {str(e2)[:300]}", "harness-error")}
+    return out
+
+
+def fork_call(fn, *args):
+    """run fn(*args) in a forked child of THIS process; returns (pid, read end of the pipe)"""
+    r, w = os.pipe()
+    pid = os.fork()
+    if pid == 0:
+        code = 0
+        try:
+            os.close(r)
+            try:
+                data = pickle.dumps(fn(*args))
+            except BaseException as e:          # noqa: the child must not fall back into the parent's code
+                data = pickle.dumps({"exc": (f"harness: {type(e).__name__}: {str(e)[:300]}", "harness-error")})
+            with os.fdopen(w, "wb") as f:
+                f.write(data)
+        except BaseException:
+            code = 1
+        finally:
+            os._exit(code)
+    os.close(w)
+    return pid, r
+
+
+def fork_collect(pid, r):
+    with os.fdopen(r, "rb") as f:
+        data = f.read()
+    os.waitpid(pid, 0)
+    if not data:
+        raise RuntimeError("harness: forked evaluation of a reuse case died")
+    return pickle.loads(data)
 
 
 def exc_verdict(e):
@@ -562,7 +709,7 @@ class C10(Prop):
             "corr = model vs code for a batch of 1-4 points and for one of its points alone (parameters, every hysteresis' P_RAM, verdict, early-failure index, lifetimes, N_10/50/90), and that point in the batch vs alone; "
             "batch = every point of a batch vs alone (plain Series or one-point two-level Series), incl. batches with a hot spot (a point constructed from its single-point result to reach the damage sum one within the two recorded passes) in first / middle / last position next to finite- and infinite-life points; "
             "batches come in every layout of the two-level index: node labels 0..n-1 / offset / ascending with gaps / descending / shuffled, rows ordered load step by load step or point by point, load_step labels 0..n-1 / 1..n / 100.. / steps of 10 / shuffled (the history is the row order); "
-            "refine = non-reversal / repeated / appended / prepended samples (a prepended sample lies between the first sample and both the initial load 0 and the last sample); mono = load scale, roughness (R_z or K_R,P), P_A (blanket / normal / lognormal load safety, c != 1); n105090. "
+            "refine = non-reversal / repeated / appended / prepended samples (a prepended sample lies between the first sample and both the initial load 0 and the last sample); mono = load scale, roughness (R_z or K_R,P), P_A (blanket / normal / lognormal load safety, c != 1); n105090; reuse = state and aliasing: the argument objects of an assessment A (1-3 points) and of B (= A with ONE of R_m / group / P_A / K_p / roughness / A_sigma / G / load scale / load sequence of the same maximum varied) are built once and called A,B,A in one forked process and B,A,B in another (forked from the main process, which runs no assessment itself): same objects give the same result again, a result does not depend on what was assessed before (both orders), values of the caller's parameters and the load sequence are bit-for-bit unchanged, every point alone with the SAME parameter object = in the batch. "
             "3 material groups x 3-4 tensile strengths, sequences of 3-10 (14) integer loads up to 0.25-1.0 R_m (some 2-6 R_m) incl. round loads exactly on class edges (correspondence cases avoid inexact edges: the model selects classes in exact arithmetic), ratios 0.5-1.5, uniform / per-point G, P_A from the guideline table and free values; "
             "non-trivial = at least one hysteresis and a finite P_RAM value; distinct by (loads, ratios, material)")
     ASSUMPTIONS = [
@@ -573,6 +720,7 @@ class C10(Prop):
         "in the model of a batch the first point's stresses/strains that only steer min/max selections are evaluated with the assessed point's table (only their order matters; table values are positive); beyond the last class edge the model returns the last class value where the code raises (never reached for the point's own loads)",
         "beta = compute_beta(P_A) (the normal quantile since /repo commit 763ab65; a root search before) is taken from the real run (C09); loads of correspondence cases are integers with c = 1, P_L = 50 so that the scaled loads are exact",
         "scope of 'non-reversal sample' at the head of the sequence: the first pass starts at load 0, so a prepended sample is a non-reversal when it lies between the first sample and BOTH the initial load 0 and the last sample; a value between the last and the first sample only IS a reversal of the first pass and changes the first-pass hystereses (kernel-checked example C10.prepend_between_last_and_first_changes_records)",
+        "the assessment adds the informational keys notes / max_load_independently_for_nodes to the caller's parameter Series (notes grows with every call); that is outside the property (it does not change any result) and only counted (distribution.argument_keys_added); a CHANGED value of an existing key, a removed key or any change of the load sequence is a failure (class args-mutated): it changes what the next assessment with the same objects computes",
         "a load_step label is a label: the history is the row order of the Series (the docstring asks for consecutive labels from 0; increasing labels with other starts / steps and one shuffled labelling are accepted by the code and generated; labels DESCENDING by one are not generated by C10: the first run shifts its labels by +1, they then collide with labels of the second run, and until /repo commit 2dcaa8f FKMNonlinearRecorder._get_for_every_node, which inferred the number of points from runs of equal labels, raised ValueError - repaired by 2dcaa8f (filed under C05; C04 / C05 generate that layout), so the layout could be generated here as well; C10's generator has not been extended)",
         "oracle tolerances: batch vs single / refined vs base lifetimes 1e-8 (P_RAM) and 1e-6 (P_RAJ) relative (measured noise of the vectorised Newton tables: lifetimes <= 6e-12 (P_RAM) and <= 4e-11 (P_RAJ), recorded per run in distribution.max_rel_*); monotonicity 1e-6; verdicts compared only when P_max is more than 1e-3 away from the endurance value; running strain extremes batch vs single to 2e-5 of the largest strain of the history (the Seeger-Beste primary branch is solved to rtol 1e-5; tolerance kept from before the repair b50f603, measured deviation then 1.1e-6; since b50f603 the Seeger-Beste solver is a per-element bisection without scipy and without dependence on companion elements, and since 8e3c607 it stops at 5 % of tol + rtol |root| and interpolates with the analytic end values: a batch and a single run solve the same element the same way.  The tolerance 2e-5 has NOT been tightened after either commit; no separate measurement campaign was made, but every run records its largest deviation in distribution.max_rel_batch_LF (quick tier, seed 1, /repo 2da931b: 0.0)); scipy 'Failed to converge' (scipy.optimize.newton: the extended-Neuber tables and the closure-stress Newton iteration of the P_RAJ damage parameter; no longer the Seeger-Beste tables) is counted, not judged",
         "finding classes are guarded in the oracle: batch-node-order (fixed by /repo commit 64dfe3b, so a failure of this class is reported, not tolerated) only for a batch whose node labels are not ascending; the open classes: mono-P_RAM-early-failure-count only across the early-failure boundary with n1 >= n2 + 2 first/second-pass hystereses and an increase <= n1 - n2 cycles (exactly the complement of the theorems' hypothesis Regime); mono-pa-above-half only for P_A > 0.5 compared with exactly 0.5; mono-P_RAJ-rough / -pa only with fewer than 1000 P_RAJ classes, an increase <= 60 % that vanishes (<= 3 %) when the same pair is re-run with 2000 classes; mono-P_RAJ-scale only when the P_RAJ value of one of the (same) hystereses is smaller in the scaled run (crack closure); mono-P_RAJ-scale-classing like -rough with an increase <= 2 %; anything else of the same relation is reported under another class",
@@ -586,7 +734,7 @@ class C10(Prop):
                       "layout_ids": {}, "layout_rows": {}, "layout_steps": {}, "edge_load_cases": 0, "alone_as_one_point_batch": 0,
                       "corr_batch_line_suspended_open_finding": 0, "prepended_samples": 0,
                       "max_rel_batch_P_RAM": 0.0, "max_rel_batch_P_RAJ": 0.0, "max_rel_refine_P_RAM": 0.0, "max_rel_refine_P_RAJ": 0.0, "max_rel_batch_LF": 0.0,
-                      "mono_failures_examined": {}}
+                      "mono_failures_examined": {}, "reuse_varied": {}, "argument_keys_added": {}}
         self.exhaustive = False
         self._cache = {}
         self._open = {e["class"] for e in load_known(self.ID) if e.get("status") == "open"}
@@ -687,6 +835,11 @@ class C10(Prop):
             cases.append(c)
         # batches with a hot spot: one point reaches the damage sum one within the two recorded passes (the early-failure
         # branch of DamageCalculatorPRAM), in first / middle / last position next to finite-life and infinite-life points
+        # state / argument integrity: generated from a random stream of their own, started now (forked from this process, which
+        # has not run an assessment itself), collected at the end of generate
+        rr = random.Random(rng.getstate()[1][1])
+        reuse_cases = [self._gen_reuse(rr, quick) for _ in range(5 if quick else 48)]
+        reuse_jobs = self._reuse_start(reuse_cases)
         n_hot = 9 if quick else 60
         protos = []
         for _ in range(n_hot):
@@ -723,10 +876,127 @@ class C10(Prop):
                 cases.append({"kind": "batch", "par": par, "L": L, "cs": cs, "G": [G] * len(cs), "hot": cs.index(ch), "ram_only": True, "lay": lay})
         cases += praj.generate(rng, tier)
         rng.shuffle(cases)
+        cases += reuse_cases                         # appended behind the shuffle: the other cases keep their random stream
         self._precompute(cases)
         praj.precompute(cases, self.PARALLEL)
+        self._reuse_collect(reuse_jobs)
         self.stats["praj"] = praj.stats()
         return cases
+
+    # ------------------------------------------------------------ state and argument integrity (case kind `reuse`)
+    def _gen_reuse(self, rr, quick):
+        """A = one assessment (1-3 points, uniform G), B = the same with ONE thing varied, so that a memo keyed by a PART of the
+        input (K_p and the number of classes, the material group, the load maximum, id() of an argument ...) collides"""
+        par = gen_par(rr, table_pa=True)
+        par["Kp"] = round(rr.uniform(1.6, 3.4), 3)           # values no other case kind uses
+        r = rr.random()
+        if r < 0.25:                                         # the load sequence is scaled inside the assessment
+            par.update(PL=2.5, c=rr.choice([1.4, 0.7]))
+        elif r < 0.4:
+            par.update(sL=rr.choice([5.0, 10.0]), PL=rr.choice([50, 2.5]))
+        elif r < 0.5:
+            par.update(LSDs=rr.choice([0.01, 0.03]), PL=rr.choice([50, 2.5]))
+        nn = rr.choice([1, 1, 2, 3])
+        L = gen_loads(rr, par["Rm"], rr.randint(3, 6 if quick else 10))
+        G = rr.choice([0.0, 2 / 15, 0.5, 1.0])
+        g = par["group"]
+        what = rr.choice(["Rm", "group", "PA", "Kp", "rough", "scale", "L", "G", "Asigma"])
+        if what == "Rm":
+            val = {"Rm": rr.choice([x for x in RM[g] if x != par["Rm"]])}
+        elif what == "group":
+            g2 = rr.choice([x for x in GROUPS if x != g])
+            val = {"group": g2, "Rm": par["Rm"] if par["Rm"] in RM[g2] else rr.choice(RM[g2])}
+        elif what == "PA":
+            val = {"PA": rr.choice([x for x in PA_TABLE if x != par["PA"]])}
+        elif what == "Kp":
+            val = {"Kp": round(par["Kp"] + rr.choice([-0.4, 0.3, 0.6]), 3)}
+        elif what == "rough":
+            val = {"krp": None, "Rz": rr.choice([x for x in [1.0, 6.3, 25.0, 100.0] if x != par.get("Rz")])}
+        elif what == "Asigma":
+            val = {"Asigma": rr.choice([x for x in [50.0, 339.4, 500.0, 1500.0] if x != par["Asigma"]])}
+        elif what == "scale":
+            val = rr.choice([0.5, 0.8, 1.25, 2.0])
+        elif what == "G":
+            val = rr.choice([x for x in [0.0, 2 / 15, 0.5, 1.0, 4.0] if x != G])
+        else:
+            # another sequence of the same length with the same maximum absolute load
+            M = max(abs(v) for v in L)
+            val = [rr.randint(-M, M) for _ in L]
+            val[rr.randrange(len(L))] = rr.choice([M, -M])
+            if val == L or len(set(val)) < 2:
+                val = [-v for v in L]
+        if what in ("Rm", "group", "PA", "Kp", "rough", "Asigma"):
+            what = "par"
+        c = {"kind": "reuse", "par": par, "L": L, "cs": gen_cs(rr, nn), "G": G, "vary": [what, val],
+             "raj": rr.random() < 0.6, "rajB": rr.random() < 0.4}
+        if nn > 1:
+            c["lay"] = gen_lay(rr, nn)
+        return c
+
+    def _reuse_start(self, cases):
+        """fork the two call orders of every reuse case from THIS process (the main process never runs an assessment itself, so
+        the children start without any state left behind by other cases); at most 2 * PARALLEL children at a time"""
+        jobs = []
+        for c in cases:
+            key = self._key(c)
+            if key not in self._cache:
+                jobs.append((c, key))
+        running = []
+        for c, key in jobs[:self.PARALLEL]:
+            running.append((key, [fork_call(reuse_child, c, first) for first in ("A", "B")]))
+        return {"running": running, "waiting": jobs[self.PARALLEL:]}
+
+    def _reuse_collect(self, jobs):
+        while jobs["running"]:
+            key, (fa, fb) = jobs["running"].pop(0)
+            self._cache[key] = {"A": fork_collect(*fa), "B": fork_collect(*fb)}
+            if jobs["waiting"]:
+                c, k2 = jobs["waiting"].pop(0)
+                jobs["running"].append((k2, [fork_call(reuse_child, c, first) for first in ("A", "B")]))
+
+    def _reuse_eval(self, case):
+        key = self._key(case)
+        if key not in self._cache:
+            self._reuse_collect(self._reuse_start([case]))
+        return self._cache[key]
+
+    def _oracle_reuse(self, case):
+        """(1) the same argument objects give the same result again, also after an assessment with other parameters / loads in
+        between, whichever of the two comes first in the life of the process; (2) the values of the caller's parameters and the
+        load sequence are what they were; (3) every point of the batch alone, with the SAME parameter object, gets what it got
+        in the batch"""
+        ev = self._reuse_eval(case)
+        a, b = ev["A"], ev["B"]
+        if a.get("solver") or b.get("solver"):
+            self.stats["solver_failures"] += 1
+            return None
+        for side in (a, b):
+            if "exc" in side:
+                return tuple(side["exc"])
+        self.stats["assessments"] += 6 + len(a["alone"])
+        self._note_layout(case)
+        self._count("reuse_varied", case["vary"][0] if case["vary"][0] != "par" else "+".join(sorted(case["vary"][1])))
+        for k in sorted(set(a["added"]) | set(b["added"])):
+            self._count("argument_keys_added", k)
+        ctx = f"B = A with {case['vary'][0]} varied: {case['vary'][1]}; " + self._ctx(dict(case, G=[case["G"]] * len(case["cs"])))
+        for side, first in ((a, "A"), (b, "B")):
+            if side["args"]:
+                return (f"the assessment changed its caller's arguments ({side['args']}); {ctx}", "args-mutated")
+        A1, B_afterA, A2 = a["res"]
+        B1, A_afterB, B2 = b["res"]
+        nn = len(case["cs"])
+        for k in range(nn):
+            for x, y, what, kl in ((A1[k], A2[k], "A called again with the same argument objects after B", "state-repeated-call"),
+                                   (B1[k], B2[k], "B called again with the same argument objects after A", "state-repeated-call"),
+                                   (A1[k], A_afterB[k], "A as the first assessment of the process vs A after B", "state-call-order"),
+                                   (B1[k], B_afterA[k], "B as the first assessment of the process vs B after A", "state-call-order")):
+                if not same_summary(x, y):
+                    return (f"the result of an assessment depends on the assessments made before it ({what}), point {k}: {first_difference(x, y)}; {ctx}", kl)
+        for k, rs in enumerate(a["alone"]):
+            r = self._cmp_same(A1[k], rs, f"point {k} in the batch vs alone, the same parameter object used for both", ctx, "reuse-batch", stat="batch")
+            if r:
+                return r[:2]
+        return None
 
     # ------------------------------------------------------------ correspondence
     def _tables(self, res, labels):
@@ -1130,7 +1400,7 @@ class C10(Prop):
 
     # ------------------------------------------------------------ shrinking
     def shrink(self, case, still_fails):
-        if case["kind"] in ("praj", "hotprobe"):
+        if case["kind"] in ("praj", "hotprobe", "reuse"):
             return case
         cur = {k: v for k, v in case.items() if not k.startswith("_") and k != "hot"}   # "hot" (position of the hot spot) is bookkeeping only
 
